@@ -22,7 +22,11 @@ RULE = ("seeded member lists under group keys g, grp, my_g, my-g, c, h, p: 1-5 l
         "--g=JSON, --cfg=config strings, unknown options; parse_object; parse_string; nested mappings and dotted keys; "
         "each with 0-2 environment variables incl. APP_<G>, APP_<G>__<SUB>, APP_<G>__<F>, APP_CFG; valid and invalid "
         "values, unknown keys, scalar / string / null / empty mapping for the group or sub-group key) through the four "
-        "real parsers. non-trivial = table case with >=2 leaves or run case with a non-empty input; distinct = distinct "
+        "real parsers; scalars for the group key are truthy and falsy (5, [1], true, 0, false, []). Each declaration "
+        "also carries a construction HISTORY for the inner-parser style: in 2/3 of them the component parser (and a "
+        "nested component) was USED on its own before being attached — parse_env, parse_args with env, plain "
+        "parse_args, help, get_defaults or dump, with default_env=True / env_prefix=COMPONENT — which must not change "
+        "anything (the model compilers do not depend on it). non-trivial = table case with >=2 leaves or run case with a non-empty input; distinct = distinct "
         "(declaration, input, observation)")
 TRUSTED = [
     "Coq 8.16.1 kernel + vm_compute",
@@ -51,6 +55,9 @@ ASSUMPTIONS = [
     "argument group; the signature styles register the raw group key, e.g. 'my-g', as a group name, so "
     "parse_object({'my-g': {}}) is accepted by the dataclass / class styles and rejected by the dotted / inner-parser "
     "styles: a residual difference that the two-level table model (no group names) does not cover; see notes/C07.md)",
+    "the only construction history modelled as irrelevant is a stand-alone USE of the inner-parser style's component "
+    "parser before attaching (parse / help / defaults / dump); modifying it after attaching, or attaching one component "
+    "twice, is not generated",
     "the top-level 'cfg' entry of the result (list of config paths) is the same in all styles and is not compared",
     "exception classes and message texts are not compared (accept / reject / exit / other)",
 ]
@@ -263,7 +270,7 @@ def gen_config(rng, gk, fs, complete):
         # becomes a branch again is not representable in the flattened namespace of the model (see ASSUMPTIONS)
         d = {g: nest(group_dict(rng, fs, complete))}
     elif r < 0.78:
-        d = {g: rng.choice([5, [1], True])}
+        d = {g: rng.choice([5, [1], True, 0, False, []])}   # truthy and falsy non-mappings
     elif r < 0.86:   # class 3: string / null for the group key
         d = {g: rng.choice([json.dumps(nest(group_dict(rng, fs, complete))), None, "abc", "5"])}
     elif r < 0.90:
@@ -367,6 +374,9 @@ FIXED = [
       {"env": {}, "kind": "obj", "obj": {"g": "{\"a\": 2}"}},
       {"env": {}, "kind": "obj", "obj": {"g": None}},
       {"env": {}, "kind": "obj", "obj": {"g": 5}},
+      {"env": {}, "kind": "obj", "obj": {"g": 0}},
+      {"env": {}, "kind": "str", "text": "g: false\n"},
+      {"env": {}, "kind": "args", "args": [["--cfg", "{\"g\": []}"]]},
       {"env": {}, "kind": "args", "args": [["--g.a", "4"], ["--g.b", "z"]]}]),
     ("g", [["a", "int", {"v": 1}]], [{"env": {}, "kind": "args", "args": [["--g", "5"]]}]),
     ("g", [["b", ["opt", "int"], {"nd": 1}], ["c", "str", {"v": None}], ["_p", "int", {"v": 1}]],
@@ -434,8 +444,11 @@ def gen_members(rng, gk):
     return ms
 
 
-def mk_case(t, gk, ms, inp=None, full=False):
-    c = {"t": t, "gk": gk, "members": ms, "nmembers": py_mnorm(ms), "cls_full": full}
+HISTORIES = [None, None, None, "parse_env", "parse_args_env", "parse_args", "help", "defaults", "dump"]
+
+
+def mk_case(t, gk, ms, inp=None, full=False, history=None):
+    c = {"t": t, "gk": gk, "members": ms, "nmembers": py_mnorm(ms), "cls_full": full, "inner_history": history}
     if inp is not None:
         c["input"] = inp
     return c
@@ -445,9 +458,10 @@ def generate(rng, tier):
     cases = []
     for k, (gk, ms, inputs) in enumerate(FIXED):
         full = k % 2 == 1
-        cases.append(mk_case("table", gk, ms, None, full))
+        history = HISTORIES[(2 * k + 3) % len(HISTORIES)]
+        cases.append(mk_case("table", gk, ms, None, full, history))
         for inp in inputs:
-            cases.append(mk_case("run", gk, ms, inp, full))
+            cases.append(mk_case("run", gk, ms, inp, full, history))
     n_lists = 230 if tier == "quick" else 2600
     for _ in range(n_lists):
         gk = rng.choice(GKEYS)
@@ -458,10 +472,11 @@ def generate(rng, tier):
         if any(is_sub(m) and (not py_norm(m["fields"]) or len({f[0] for f in m["fields"]}) != len(m["fields"])) for m in ms):
             continue
         full = rng.random() < 0.5
-        cases.append(mk_case("table", gk, ms, None, full))
+        history = rng.choice(HISTORIES)   # construction history of the inner-parser style's component parser
+        cases.append(mk_case("table", gk, ms, None, full, history))
         lv = leaves(ms)
         for _ in range(10):
-            cases.append(mk_case("run", gk, ms, gen_input(rng, gk, lv), full))
+            cases.append(mk_case("run", gk, ms, gen_input(rng, gk, lv), full, history))
     return cases
 
 
@@ -469,13 +484,14 @@ def generate(rng, tier):
 def observe(cases):
     groups = {}
     for i, c in enumerate(cases):
-        groups.setdefault(json.dumps([c["gk"], case_members(c)]), []).append(i)
+        groups.setdefault(json.dumps([c["gk"], case_members(c), c.get("inner_history")]), []).append(i)
     payload_cases, index = [], []
     for key, idxs in groups.items():
         c0 = cases[idxs[0]]
         runs = [i for i in idxs if cases[i]["t"] == "run"]
         ms, nms, full = case_members(c0)
         payload_cases.append({"gk": c0["gk"], "members": ms, "nmembers": nms, "cls_full": full,
+                              "inner_history": c0.get("inner_history"),
                               "inputs": [cases[i]["input"] for i in runs]})
         index.append((idxs, runs))
     nchunk = min(fw.JOBS, max(1, len(payload_cases)))
@@ -664,7 +680,8 @@ def describe(case, obs):
     d = {"group_key": case["gk"],
          "members: [name,type,default,{o: overriding default}] | {sub: nested dataclass member}": ms,
          "members_as_declared_in_the_dotted_and_inner_parser_styles": nms,
-         "class_style_default_dict_is_complete": full}
+         "class_style_default_dict_is_complete": full,
+         "inner_parser_used_on_its_own_before_attaching": case.get("inner_history")}
     if case["t"] == "table":
         d["tables_of_the_four_real_parsers"] = obs["tables"]
     else:
@@ -717,6 +734,8 @@ def shrink(case):
         return
 
     ms, _, full = case_members(case)
+    if case.get("inner_history"):
+        yield dict(case, inner_history=None)
 
     def with_members(ms2):
         c = {k: v for k, v in case.items() if k not in ("fields", "nfields")}
@@ -754,10 +773,10 @@ def shrink(case):
 
 
 def search(rng, tier, broken):
-    """a broken proof / tie: look for an input on which the four styles really differ (two more quick-sized
-    samples from a fresh seed; the default search would observe the whole thorough tier)"""
+    """a broken proof / tie: look for an input on which the four styles really differ (ONE more quick-sized sample
+    from a fresh seed, ~30-60 s; the default search would observe the whole thorough tier)"""
     known = fw.load_known_findings(PROP)
-    for _ in range(2):
+    for _ in range(1):
         cases = generate(rng, "quick")
         obs = observe(cases)
         bm, bi, bo = fw.judge_cases(sys.modules[__name__], cases, obs, tag="x")
